@@ -96,7 +96,7 @@ def observe(scn: dict) -> dict:
     obs = {}
     for ep in ("get_args", "get_initial_conditions", "get_right_hand_side"):
         try:
-            with alarm(10):
+            with alarm(30):
                 m = build(scn)
                 r = getattr(m, ep)()
             o = {"kind": "ok"}
@@ -133,7 +133,7 @@ def judge_given(scn: dict) -> dict | None:
     if not exp:
         return None
     try:
-        with alarm(10):
+        with alarm(30):
             m = build(scn)
             got = m.get_args(variables={"x0": 1.0, k: 100.0}).to_dict()
     except Exception as e:  # noqa: BLE001
